@@ -323,10 +323,15 @@ func checkHostMutex(c *Check) {
 	ms := p.SSA.MethodSets.MethodSet(types.NewPointer(named))
 	// helpers that touch the transport without locking
 	touchesTransport := func(ci ssa.CallInstruction) bool {
-		n, _ := calleeOf(ci)
-		if strings.HasSuffix(n, "container).sendCmd") || strings.HasSuffix(n, "container).recvReply") || strings.HasSuffix(n, "container).recvAckReply") ||
-			strings.HasSuffix(n, "container).execveSyncKill") || strings.HasSuffix(n, "container).waitForDone") {
-			return true
+		n, callee := calleeOf(ci)
+		if callee != nil && callee.Pkg != nil && strings.HasSuffix(callee.Pkg.Pkg.Path(), "/container") {
+			// the transport helpers, as methods or as functions taking the environment as their first argument
+			switch callee.Name() {
+			case "sendCmd", "recvReply", "recvAckReply", "execveSyncKill", "waitForDone":
+				if operatesOn(callee, "container.container") {
+					return true
+				}
+			}
 		}
 		// methods on c.socket (deadline, send, recv) — not Close (Destroy closes before locking by design)
 		if len(ci.Common().Args) > 0 && strings.HasSuffix(describe(ci.Common().Args[0]), ".socket") || (len(ci.Common().Args) > 0 && strings.Contains(describe(ci.Common().Args[0]), ".socket.")) {
@@ -337,20 +342,36 @@ func checkHostMutex(c *Check) {
 	lockers := map[*ssa.Function]bool{}
 	var unlocked []*ssa.Function
 	n := 0
+	// the environment's operations: its methods, and functions of the package that take it as their first argument
+	var ops []*ssa.Function
 	for i := 0; i < ms.Len(); i++ {
-		fn := p.SSA.MethodValue(ms.At(i))
+		if fn := p.SSA.MethodValue(ms.At(i)); fn != nil {
+			ops = append(ops, fn)
+		}
+	}
+	for _, fn := range p.PkgFuncs("container") {
+		if fn.Signature.Recv() == nil && operatesOn(fn, "container.container") {
+			ops = append(ops, fn)
+		}
+	}
+	for _, fn := range ops {
 		if fn == nil || fn.Synthetic != "" || fn.Blocks == nil {
 			continue
 		}
 		var lock ssa.CallInstruction
 		deferUnlock := false
+		var unlocks []ssa.Instruction
 		for _, ci := range callInstrs(fn) {
 			nm, _ := calleeOf(ci)
 			if nm == "(sync.Mutex).Lock" && strings.HasSuffix(describe(ci.Common().Args[0]), ".mu") && lock == nil {
 				lock = ci
 			}
 			if nm == "(sync.Mutex).Unlock" && strings.HasSuffix(describe(ci.Common().Args[0]), ".mu") {
-				_, deferUnlock = ci.(*ssa.Defer)
+				if _, isD := ci.(*ssa.Defer); isD {
+					deferUnlock = true
+				} else {
+					unlocks = append(unlocks, ci)
+				}
 			}
 		}
 		var touches []ssa.CallInstruction
@@ -368,7 +389,29 @@ func checkHostMutex(c *Check) {
 					bad = p.Pos(t.Pos())
 				}
 			}
-			c.Cond(bad == "" && deferUnlock && len(extraConds(controlDeps(fn), lock.Block())) == 0, "5/env-mutex", "container.(host)"+fn.Name()+":lock-first", p.Pos(fn.Pos()),
+			// released on return: by defer, or explicitly on every path to a return with no transport use after it
+			released := deferUnlock
+			if !released && len(unlocks) > 0 {
+				isUnl := func(in ssa.Instruction) bool {
+					for _, u := range unlocks {
+						if u == in {
+							return true
+						}
+					}
+					return false
+				}
+				held, _ := pathQuery{fn: fn, from: lock, target: isReturnOrPanic, stop: isUnl}.find()
+				released = !held
+				for _, u := range unlocks {
+					for _, t := range touches {
+						if anyReach(u.Block(), t.Block()) && (u.Block() != t.Block() || before(u.(ssa.CallInstruction), t)) {
+							released = false
+							bad = p.Pos(t.Pos())
+						}
+					}
+				}
+			}
+			c.Cond(bad == "" && released && len(extraConds(controlDeps(fn), lock.Block())) == 0, "5/env-mutex", "container.(host)"+fn.Name()+":lock-first", p.Pos(fn.Pos()),
 				"takes the environment mutex before touching the transport and releases it on return", "touches the environment's socket/channels at "+bad+" before taking the mutex (or does not release it by defer): a concurrent call's deadline, command or reply is disturbed")
 		} else if len(touches) > 0 {
 			unlocked = append(unlocked, fn)
